@@ -2,3 +2,8 @@ import Props.C19
 #print axioms C19.rename_private_prefix
 #print axioms C19.rename_exempt
 #print axioms C19.rename_valid_identifier_counterexample
+#print axioms C19.rename_capture_free
+#print axioms C19.rename_scope_kept
+#print axioms C19.rename_check_sound
+#print axioms C19.merge_counterexample
+#print axioms C19.split_counterexample
